@@ -51,7 +51,7 @@ def _subsets(n, all_subsets):
            must_cover=["rewound", "abandoned", "finished", "retry_after_abandon"],
            cfg={"path_timeout_s": 20},
            bounds={"quick": dict(shapes=Q_SHAPES, calls=7, nrewind=(2, 4), rw_maxiter=(2,), all_subsets=False, attempts=1),
-                   "thorough": dict(shapes=T_SHAPES, calls=10, nrewind=(2, 5), rw_maxiter=(2, 3), all_subsets=True, attempts=2)},
+                   "thorough": dict(shapes=T_SHAPES[:9], calls=9, nrewind=(2, 5), rw_maxiter=(2, 3), all_subsets=False, attempts=2)},
            budget={"quick": 200, "thorough": 1500})
 def rewind(sx, B):
     """Real BuildSystem.run_system/_compose_system/_handle_random_walk, RandomWalk._random_walk/_rewind and NonBondEngine on a
